@@ -95,6 +95,13 @@ impl Frame {
 
         match result {
             Ok(0) => Restion::None,
+            Ok(1) => {
+                // Only the first byte of the header has arrived so far, so wait for the second
+                match stream.read_exact(&mut buf[1..]) {
+                    Ok(_) => Self::from_stream_inner(stream, buf).into(),
+                    Err(_) => Restion::Err(WebsocketError::ReadError),
+                }
+            }
             Ok(_) => Self::from_stream_inner(stream, buf).into(),
             Err(ref e) if e.kind() == std::io::ErrorKind::WouldBlock => Restion::None,
             Err(_) => Restion::Err(WebsocketError::ReadError),
